@@ -55,6 +55,7 @@ func checkC02(w *World, r *Report) {
 
 	r.Rule("R02.6", "predicate brackets are balanced: PREDSTART opens a copy of the current path and increments the predicate depth; PREDEND decrements it, drops the copy and resets every piece of per-predicate state (the key-name/operand toggle), so consecutive predicates start from the same state; the toggle tests in the step instruction and in EvalLocPath are complementary", 5)
 	r.guard("R02.6", func() { c02Brackets(w, r) })
+	r.guard("R02.6", func() { c02PredicateFlags(w, r) })
 }
 
 func c02Prefix(w *World, r *Report) {
@@ -903,5 +904,92 @@ func c02FreshKeyMap(w *World, r *Report) {
 	}
 	if n == 0 {
 		r.Fail("R02.4", "AddEmptyMap", f.Pos(), "no write to the key-map stack found")
+	}
+}
+
+// c02PredicateFlags (R02.6): the branch '=' takes inside a predicate (attach a
+// key, or compare) is selected by boolean flags of the context that earlier
+// instructions may have left set. Every boolean context field that Eq reads to
+// select its branch is cleared by both the PREDSTART and the PREDEND
+// instruction, so a predicate never starts with a stale flag.
+func c02PredicateFlags(w *World, r *Report) {
+	eq := w.SSAFunc(w.Method("xpath", "ProgBuilder", "Eq"))
+	if eq == nil {
+		panic(undecided{"ProgBuilder.Eq"})
+	}
+	ctxT := w.Field("xpath", "context", "predicateCount") // any field, to find the struct
+	_ = ctxT
+	flags := map[string]bool{}
+	for _, b := range eq.Blocks {
+		for _, in := range b.Instrs {
+			u, ok := in.(*ssa.UnOp)
+			if !ok || u.Op != token.MUL {
+				continue
+			}
+			fa, ok := u.X.(*ssa.FieldAddr)
+			if !ok || namedStructOf(fa.X.Type()) != "context" {
+				continue
+			}
+			st := fa.X.Type().(*types.Pointer).Elem().Underlying().(*types.Struct)
+			fld := st.Field(fa.Field)
+			if bt, ok := fld.Type().Underlying().(*types.Basic); !ok || bt.Kind() != types.Bool {
+				continue
+			}
+			// used as a branch condition (directly or through && / ||)
+			for _, ref := range *u.Referrers() {
+				if _, isIf := ref.(*ssa.If); isIf {
+					flags[fld.Name()] = true
+				}
+			}
+		}
+	}
+	if len(flags) == 0 {
+		panic(undecided{"Eq selects its branch on no boolean context flag"})
+	}
+	var names []string
+	for n := range flags {
+		names = append(names, n)
+	}
+	sortStrings(names)
+	for _, builder := range []string{"CodePredStart", "CodePredEnd"} {
+		bf := w.SSAFunc(w.Method("xpath", "ProgBuilder", builder))
+		if bf == nil {
+			panic(undecided{"ProgBuilder." + builder})
+		}
+		cleared := map[string]bool{}
+		for _, f := range append([]*ssa.Function{bf}, bf.AnonFuncs...) {
+			for _, b := range f.Blocks {
+				for _, in := range b.Instrs {
+					st, ok := in.(*ssa.Store)
+					if !ok {
+						continue
+					}
+					fa, ok := st.Addr.(*ssa.FieldAddr)
+					if !ok || namedStructOf(fa.X.Type()) != "context" {
+						continue
+					}
+					c, ok := st.Val.(*ssa.Const)
+					if !ok || c.Value == nil || c.Value.Kind() != constant.Bool || constant.BoolVal(c.Value) {
+						continue
+					}
+					s2 := fa.X.Type().(*types.Pointer).Elem().Underlying().(*types.Struct)
+					// unconditional: in the closure's entry block
+					if b.Index == 0 {
+						cleared[s2.Field(fa.Field).Name()] = true
+					}
+				}
+			}
+		}
+		for _, n := range names {
+			r.Check(cleared[n], "R02.6", builder+" clears context."+n, bf.Pos(), "flag = false, unconditionally", "the flag "+n+", which '=' reads to decide between attaching a key and comparing, is not cleared by "+builder+": set by an earlier comparison in the same expression (e.g. a leaf-list on the left of '='), it sends the first predicate that follows down the comparison branch, and the key is never attached")
+		}
+	}
+}
+
+func sortStrings(s []string) {
+	for i := 1; i < len(s); i++ {
+		for j := i; j > 0 && s[j] < s[j-1]; j-- {
+			s[j], s[j-1] = s[j-1], s[j]
+		}
 	}
 }
